@@ -24,7 +24,7 @@ RULE = ("seeded set-ups: grids [nr 6-9, ntheta 4-9 even and odd, nz 7-8, nv 6-9]
         "(3,1),(1,3),(3,2),(2,3), chi in {0,1}, adiabatic or kinetic electrons, distributions = equilibrium*(1+eps*mode) with "
         "poloidal mode numbers also above ntheta/2 (aliasing bookkeeping) from pygyro's own initialiser, or equilibrium + "
         "random perturbation (relative size 0.2, and 1e-9), or one strong poloidal mode with side bands nine orders of magnitude weaker; stages rho / modes / phi_hat / phi assembled over ranks and compared with the independent "
-        "pipeline; FFT round trip on random complex grids; equilibrium (eps=0): rho, phi exactly zero and one full Strang "
+        "pipeline; the same solver objects are then used for a second distribution (compared the same way) and for the first one again (bit-identical stages required); FFT round trip on random complex grids; equilibrium (eps=0): rho, phi exactly zero and one full Strang "
         "step is a fixed point.  A class is (ntheta parity, chi/electron model, which of r|z split, data kind, stage).")
 ASSUMPTIONS = ["simulated MPI through all layout changes of the pipeline (self-tested)", "reference per-mode solve = dense Galerkin assembly of C14 with the QN coefficient functions",
                "tolerance 1000*eps*cond(K)*kappa*scale per stage"]
@@ -87,6 +87,8 @@ def _pipeline(case, spl, ps):
     else:
         F = FEQ4 * (1 + c.eps * np.exp(-(R - c.rp) ** 2 / c.deltaR) * np.cos(c.m * TH + c.n * Z / c.R0))
     RT = rs.standard_normal((nr, nth, nz)) + 1j * rs.standard_normal((nr, nth, nz))
+    # second distribution for the SAME solver objects (the driver calls them once per sub-step)
+    F2 = FEQ4 * (1 + 0.05 * rs.standard_normal(npts) + 0.3 * np.cos(((mmode + 1) % nth) * TH + 0.7))
     chi = 1 if model == "chi1" else 0
     adiabatic = model != "kinetic"
 
@@ -99,12 +101,20 @@ def _pipeline(case, spl, ps):
             initialise_v_parallel(sim.f, c)
         st = driverlike.Stepper(sim, chi=chi, adiabatic=adiabatic)
         obs = {"f0": sim.block(sim.f)}
+        lay0, mine = sim.f.currentLayout, np.array(sim.f.getAllData(), copy=True)
         st.compute_phi(observe=lambda name, g: obs.__setitem__(name, sim.block(g)))
         # FFT round trip on the phi grid (layout v_parallel_2d)
         sim.scatter(sim.phi, RT)
         st.QN.getModes(sim.phi)
         st.QN.findPotential(sim.phi)
         obs["roundtrip"] = sim.block(sim.phi)
+        # history on the same objects: another distribution, then the first one again
+        sim.scatter(sim.f, F2)
+        st.compute_phi(observe=lambda name, g: obs.__setitem__(name + "#2", sim.block(g)))
+        obs["f2"] = sim.block(sim.f)
+        if sim.f.currentLayout == lay0:
+            sim.f.getAllData()[:] = mine
+            st.compute_phi(observe=lambda name, g: obs.__setitem__(name + "#3", sim.block(g)))
         return obs
 
     w = MPI.run_world(P, prog, schedule="random", seed=case["seed"], timeout=800)
@@ -131,6 +141,32 @@ def _pipeline(case, spl, ps):
         # the initial distribution itself (pygyro's initialiser) vs. the documented formula
         if not np.all(np.abs(F0 - F) <= 100 * rm.EPS * np.abs(F).max()):
             return result(VIOL, cls=[base], events=ev, key="C15:initial-distribution", what="initialised f differs from f_eq*(1+eps*perturbation) by %.3g" % float(np.abs(F0 - F).max()), witness=wit)
+    for suffix, label in (("", "first"), ("#2", "second")):
+        Fin = F0 if suffix == "" else asm("f2", tuple(npts))
+        if suffix == "#2" and not np.array_equal(Fin, F2):
+            return result(VIOL, cls=[base], events=ev, key="C15:f-changed-by-compute-phi", what="the distribution function handed to the second potential computation was modified", witness=wit)
+        r_ = _compare_stages(Fin, suffix, label, asm, qnref, c, eta, bs, breaks, chi, adiabatic, nth, (nr, nth, nz), base, model, mmode, nprocs, ev, cls, wit)
+        if r_ is not None:
+            return r_
+    # third computation with the first distribution again: bit-identical to the first
+    if all((name + "#3") in w.results[0] for name in ("rho", "phi")):
+        for name in ("rho", "modes", "phi_hat", "phi"):
+            a, b = asm(name, (nr, nth, nz)), asm(name + "#3", (nr, nth, nz))
+            ev["repeat_points"] = ev.get("repeat_points", 0) + a.size
+            cls.add("%s/repeat-bit-identical" % base)
+            if not np.array_equal(a, b):
+                return result(VIOL, cls=sorted(cls), events=ev, key="C15:history/%s-not-reproducible" % name,
+                              what="stage '%s' of the same distribution computed again on the same solver objects (after another distribution) differs (max |difference| %.3g, %d entries not equal)" % (name, float(np.nanmax(np.abs(a - b))), int((a != b).sum())), witness=wit)
+    G = asm("roundtrip", (nr, nth, nz))
+    ev["roundtrip_points"] += G.size
+    cls.add("%s/fft-roundtrip" % base)
+    if not np.all(np.abs(G - RT) <= C * rm.EPS * np.abs(RT).max() * np.log2(nth + 1)):
+        return result(VIOL, cls=sorted(cls), events=ev, key="C15:fft-roundtrip", what="getModes followed by findPotential changed the field by %.3g" % float(np.abs(G - RT).max()), witness=wit)
+    return result(HELD, cls=sorted(cls), events=ev, n_eval=ev["stage_points_compared"], sched=str(hash(w.arrival_signature())))
+
+
+def _compare_stages(F0, suffix, label, asm, qnref, c, eta, bs, breaks, chi, adiabatic, nth, shape3, base, model, mmode, nprocs, ev, cls, wit):
+    nr, nth, nz = shape3
     ref = qnref.pipeline(F0, c, eta, bs, breaks, chi=chi, adiabatic=adiabatic, qn_degree=7)
     if ref["cond"] > 1e11:
         return result(SKIP, what="reference problem ill conditioned (%.3g)" % ref["cond"])
@@ -145,26 +181,21 @@ def _pipeline(case, spl, ps):
     tol_phi = tol_phihat * 2
     stages = [("rho", ref["rho"], tol_rho), ("modes", ref["rho_hat"], tol_hat), ("phi_hat", ref["phi_hat"], tol_phihat), ("phi", ref["phi"], tol_phi)]
     for name, R_, tol in stages:
-        G = asm(name, (nr, nth, nz))
+        G = asm(name + suffix, (nr, nth, nz))
         e = np.abs(G - R_)
         ev["stage_points_compared"] += G.size
         cls.add("%s/%s" % (base, name))
         if not np.all(e <= tol):
             idx = np.unravel_index(int(np.nanargmax(np.where(np.isnan(e), np.inf, e))), e.shape)
-            return result(VIOL, cls=sorted(cls), events=ev, key="C15:stage-%s/%s" % (name, model),
-                          what="stage '%s' (%s, ntheta=%d, mode m=%d, grid %r) differs from the independent pipeline by %.3g (tol %.3g) at (r, theta/mode, z)=%r"
-                          % (name, model, nth, mmode, nprocs, float(np.nanmax(e)), tol, tuple(int(x) for x in idx)), witness=wit)
+            return result(VIOL, cls=sorted(cls), events=ev, key="C15:stage-%s/%s%s" % (name, model, "" if suffix == "" else "/second-use"),
+                          what="stage '%s' (%s computation, %s, ntheta=%d, mode m=%d, grid %r) differs from the independent pipeline by %.3g (tol %.3g) at (r, theta/mode, z)=%r"
+                          % (name, label, model, nth, mmode, nprocs, float(np.nanmax(e)), tol, tuple(int(x) for x in idx)), witness=wit)
         if name == "phi":
             im = float(np.abs(np.imag(G)).max())
             cls.add("%s/realness" % base)
             if not im <= tol_phi:
                 return result(VIOL, cls=sorted(cls), events=ev, key="C15:potential-not-real", what="imaginary part of the potential of a real density is %.3g (tol %.3g)" % (im, tol_phi), witness=wit)
-    G = asm("roundtrip", (nr, nth, nz))
-    ev["roundtrip_points"] += G.size
-    cls.add("%s/fft-roundtrip" % base)
-    if not np.all(np.abs(G - RT) <= C * rm.EPS * np.abs(RT).max() * np.log2(nth + 1)):
-        return result(VIOL, cls=sorted(cls), events=ev, key="C15:fft-roundtrip", what="getModes followed by findPotential changed the field by %.3g" % float(np.abs(G - RT).max()), witness=wit)
-    return result(HELD, cls=sorted(cls), events=ev, n_eval=ev["stage_points_compared"], sched=str(hash(w.arrival_signature())))
+    return None
 
 
 def _equilibrium(case, spl, ps):
